@@ -32,10 +32,19 @@ func NewSafeValue(val Value, types ...string) SafeValue {
 		safeFor[k] = true
 	}
 	if v, ok := val.(SafeValue); ok {
+		// A typed nil pointer, or a struct that embeds a nil SafeValue, holds
+		// nothing and is safe for nothing: calling its methods would panic.
+		inner, usable := Value(nil), !isNilPointer(v)
+		if usable {
+			inner, usable = safeValueOf(v)
+		}
+		if !usable {
+			return safeValue{safeFor, nil}
+		}
 		for _, k := range v.SafeFor() {
 			safeFor[k] = true
 		}
-		return safeValue{safeFor, v.Value()}
+		return safeValue{safeFor, inner}
 	}
 	return safeValue{safeFor, val}
 }
